@@ -1,6 +1,7 @@
 """Reference for the logger component (docs/logging-components.rst, statement
 of C20).  PARSED, NEVER EXECUTED."""
 import functools
+import inspect
 import logging
 import string
 import sys
@@ -8,6 +9,9 @@ import sys
 from ZConfig.components.logger import loghandler
 from ZConfig.components.logger.factory import _marker
 from ZConfig.components.logger.formatter import _log_format_styles
+from ZConfig.components.logger.formatter import _log_format_variables
+from ZConfig.components.logger.formatter import AnyFieldDict
+from ZConfig.components.logger.formatter import resolve
 from ZConfig.components.logger.handlers import HandlerFactory
 from ZConfig.components.logger.loghandler import _reopenable_handlers
 from ZConfig.components.logger.logger import LoggerFactoryBase
@@ -175,3 +179,35 @@ def template_format(self, record):
 
 def safetemplate_format(self, record):
     return self._tpl.safe_substitute(record.__dict__)
+
+
+def formatterfactory_init(self, section):
+    # every factory tries its own format against a sample record at load
+    # time -- whatever other factories have seen -- with the permissive field
+    # mapping only when this section asks for arbitrary fields
+    self.format = section.format
+    self.dateformat = section.dateformat
+    self.style = section.style
+    self.stylist = _log_format_styles[self.style](self.format)
+    self.formatter = section.formatter or 'logging.Formatter'
+    if section.formatter:
+        self.factory = resolve(section.formatter)
+    else:
+        self.factory = logging.Formatter
+    if inspect.isclass(self.factory):
+        func = self.factory.__init__
+    else:
+        func = self.factory
+    params = inspect.signature(func).parameters
+    self._has_style_param = 'style' in params
+    record = logging.LogRecord(__name__, logging.INFO, __file__,
+                               42, 'some message', (), None)
+    record.__dict__.update(_log_format_variables)
+    if section.arbitrary_fields:
+        fields = AnyFieldDict()
+        fields.update(record.__dict__)
+        record.__dict__ = fields
+    try:
+        self.stylist.format(record)
+    except IndexError:
+        raise ValueError('%s formats cannot use positional placeholders')
